@@ -809,7 +809,10 @@ impl Property for C03 {
     }
 
     fn gen(&self, src: &mut Src) -> Scenario {
-        let dev_kind = CHAIN_KINDS[src.draw(3) as usize];
+        // the three library kinds of the conversion chain and (appended) the harness' 32-bit device
+        // colour, above which the chain continues with a user colour whose `==` is coarse
+        let dev_kind = [CHAIN_KINDS[0], CHAIN_KINDS[1], CHAIN_KINDS[2], ColorKind::C32][src.draw(4) as usize];
+        crate::dev::set_user_chain(dev_kind == ColorKind::C32);
         let (caps, disc) = gen_caps_disc(src);
         // swarm modes: 1/16 of the histories live far from the origin (coordinates beyond +-32768),
         // 1/64 use areas wider than 255 pixels / larger than 65535 pixels on a 340x300 device
@@ -867,6 +870,7 @@ impl Property for C03 {
             }
             steps.push(Step { stack, op, more });
         }
+        crate::dev::set_user_chain(false);
         Scenario { dev, dev_kind, steps }
     }
 
@@ -874,6 +878,15 @@ impl Property for C03 {
         match sc.dev_kind {
             ColorKind::Binary => run_history::<BinaryColor>(sc, opts),
             ColorKind::Rgb565 => run_history::<Rgb565>(sc, opts),
+            ColorKind::C32 => {
+                crate::dev::set_user_chain(true);
+                let r = crate::runner::guarded(|| run_history::<crate::dev::C32>(sc, opts));
+                crate::dev::set_user_chain(false);
+                match r {
+                    Ok(o) => o,
+                    Err(p) => panic!("{}", p),
+                }
+            }
             _ => run_history::<Rgb888>(sc, opts),
         }
     }
